@@ -49,7 +49,8 @@ class Driver:
                     if payload is not None:
                         for ln in payload:
                             self.p.stdin.write(ln + "\n")
-                        self.p.stdin.write("ENDTRACE\n")
+                        if not (payload and payload[-1] == "ENDPROC"):
+                            self.p.stdin.write("ENDTRACE\n")
                 self.p.stdin.flush()
             t = threading.Thread(target=writer)
             t.start()
